@@ -46,14 +46,17 @@ ASSUMPTIONS = ['the reader is written from the notation itself: an error without
                'half a unit is checked in exact rational arithmetic with a slack of 2 ulp of the value (Python prints '
                'floats correctly rounded) and 8 ulp of the error (the library scales the error by a power of ten in '
                'floating point before printing it)',
-               'an error with more integer digits than the significance is printed with all its integer digits '
-               '(pinned by the test-suite of the library); a rounding carry shows one digit more (0.0996 -> (100))',
+               'an error with more integer digits than the significance may be printed with all its integer digits '
+               '(what the library does); zeros ending both printed integers beyond the requested digits are not counted '
+               'as printed digits, so a printer that rounds 1234.5 to (1200) is judged with unit 100; a rounding carry '
+               'shows one digit more (0.0996 -> (100))',
                'prior parser: value exactly float(printed value), error within 1e-15 relative (one product with a '
                'power of ten)',
                'is_zero_within_error also returns True for observables that are numerically zero within the documented '
                'absolute tolerance 1e-10 of is_zero() (pinned by tests/linalg_test.py); in that regime only a result '
                'False is judged',
-               'prior_fit compares two runs of the same minimiser on inputs that agree to 1e-15: 1e-9 of the parameter error']
+               'prior_fit: fit results are compared to 1e-5 of the parameter error (accuracy of Levenberg-Marquardt with '
+               'finite-difference Jacobian: up to 6e-8 observed); the prior observable kept by the fit is compared to 1e-15']
 
 HALF = Fraction(1, 2)
 ULP2 = Fraction(1, 2 ** 51)     # 2 ulp, relative
@@ -97,13 +100,18 @@ def judge(s, V, E, sig, what):
         require(r['dec_e'] == r['dec_v'], '%s = %r: value and error are not rounded to the same decimal place' % (what, s), V, E, sig)
     fv, fe = Fraction(float(V)), Fraction(float(E))
     u = r['unit']
+    L = len(r['digits'])
+    if r['dec_v'] == 0 and L > sig:
+        # integer form with more digits than requested: zeros that end both numbers beyond the requested digits of
+        # the error are not "printed digits" in the sense of the statement (123500(1200) with two digits has unit 100)
+        tz = min(L - sig, len(r['digits']) - len(r['digits'].rstrip('0')), len(r['vi']) - len(r['vi'].rstrip('0')) if r['pv'] != 0 else L)
+        u = Fraction(10 ** tz)
     require(abs(fv - r['pv']) <= u * HALF + abs(fv) * ULP2,
             '%s = %r: reading the value back gives %s, more than half a unit of the last printed digit (%s) away from value %r'
             % (what, s, float(r['pv']), float(u), float(V)), E, sig)
     require(abs(fe - r['pe']) <= u * HALF + fe * ULP8,
             '%s = %r: reading the error back gives %s, more than half a unit of the last printed digit (%s) away from error %r'
             % (what, s, float(r['pe']), float(u), float(E)), V, sig)
-    L = len(r['digits'])
     carry = L == sig + 1 and r['digits'] == '1' + '0' * sig
     if r['dec_v'] == 0:
         require(L >= sig, '%s = %r: error printed with %d significant digits, requested %d' % (what, s, L, sig), V, E)
@@ -121,7 +129,7 @@ def judge(s, V, E, sig, what):
             'neg_zero_print': r['neg'] and r['pv'] == 0}
 
 
-def strip_flag(s, flag, what):
+def strip_flag(s, flag):
     """flagged string -> body; the flag may only add one leading character to a string that does not start with '-'."""
     return s[1:] if (flag and s[:1] == flag) else s
 
@@ -173,6 +181,7 @@ def pw(k):
     return float('1e%d' % k)
 
 
+SIG = st.sampled_from([1, 2, 2, 3, 4, 5, 6])
 CARRY_T = [0.04, 0.5, 0.8, 0.99, 1 - 1e-9, 1.0, 1 + 1e-9, 1.01, 1.2, 2.0]
 EPS = [2.0 ** -52, 2.0 ** -40, 2.0 ** -30, 1e-7]
 
@@ -233,7 +242,7 @@ def obs_ve(draw, sig, mc=0.15):
     e, efam = draw(error_value(sig))
     v, vfam = draw(central_value(e, sig))
     o = {'src': 'cov', 'v': v, 'e': e, 'efam': efam, 'vfam': vfam}
-    if draw(st.floats(0, 1)) < mc:
+    if draw(st.integers(0, 99)) < int(100 * mc):
         n = draw(st.integers(5, 8))
         z = draw(st.lists(gen.fl(-1, 1), min_size=n, max_size=n))
         z[0], z[1] = 1.0, -1.0
@@ -247,7 +256,7 @@ def excluded_bare():
 
 @st.composite
 def string_case(draw, tier):
-    sig = draw(st.integers(1, 6))
+    sig = draw(SIG)
     spec = {'obs': draw(obs_ve(sig)), 'sig': sig, 'bare_flags': True}
     if excluded_bare():
         spec['bare_flags'] = False
@@ -339,8 +348,10 @@ def general_case(draw, tier):
     nmax = 20 if tier == 'quick' else 60
     sc = draw(st.integers(-12, 12))
     mean = st.one_of(gen.fl(-3, 3), st.sampled_from([0.0, 1.0]), gen.fl(-3000, 3000))
-    spec = {'obs': draw(gen.obs_spec(ens_max=2, rep_max=2, nmin=5, nmax=nmax, mean=mean)), 'scale': pw(sc),
-            'sig': draw(st.integers(1, 6)), 'bare_flags': not excluded_bare()}
+    # contiguous / irregular lists on one grid per ensemble: a common spacing exists (precondition of the analysis)
+    spec = {'obs': draw(gen.obs_spec(ens_max=2, rep_max=2, nmin=5, nmax=nmax, mean=mean, kinds=('contig', 'irregular'))),
+            'scale': pw(sc),
+            'sig': draw(SIG), 'bare_flags': not excluded_bare()}
     if excluded_bare():
         spec['excluded'] = ['F-C19-1']
     return spec
@@ -351,7 +362,12 @@ def general_oracle(spec):
     if o is None:
         raise Skip('empty observable')
     o = spec['scale'] * o
-    o.gamma_method()
+    try:
+        o.gamma_method()
+    except ValueError as ex:
+        if 'common spacing' in str(ex):
+            raise Skip('replicas without common spacing (precondition of the analysis)')
+        raise
     V, E = float(o.value), float(o.dvalue)
     cls = ['excluded:' + x for x in spec.get('excluded', [])]
     if E == 0.0:
@@ -366,7 +382,7 @@ def general_oracle(spec):
 
 @st.composite
 def cobs_case(draw, tier):
-    sig = draw(st.integers(1, 6))
+    sig = draw(SIG)
     re_, im_ = draw(obs_ve(sig, mc=0.1)), draw(obs_ve(sig, mc=0.1))
     spec = {'re': re_, 'im': im_, 'sig': sig, 'bare_flags': True}
     exc = []
@@ -433,10 +449,10 @@ def cobs_oracle(spec):
 
 @st.composite
 def noerror_case(draw, tier):
-    sig = draw(st.integers(1, 6))
+    sig = draw(SIG)
     kind = draw(st.sampled_from(['not_analysed', 'not_analysed', 'constant', 'difference']))
-    v = draw(st.one_of(gen.fl(1.0, 9.999999999).map(lambda m: m), st.sampled_from([0.0, -0.0, 1.0, 0.5, 123456.0, 1e22, 1e-7])))
-    v = float(v * pw(draw(st.integers(-15, 15))) * draw(st.sampled_from([1.0, -1.0])))
+    v = draw(st.one_of(gen.fl(1.0, 9.999999999), st.sampled_from([0.0, -0.0, 1.0, 5.0, 1.25, 1.23456])))
+    v = float(v * pw(draw(st.integers(-15, 14))) * draw(st.sampled_from([1.0, -1.0])))
     n = draw(st.integers(5, 8))
     z = draw(st.lists(gen.fl(-1, 1), min_size=n, max_size=n))
     z[0], z[1] = 1.0, -1.0
@@ -566,8 +582,6 @@ def views_oracle(spec):
             require(isinstance(got, (bool, np.bool_)) and bool(got) == want,
                     'is_zero_within_error(%r) = %r, but |value| <= sigma * dvalue is %r' % (sigma, got, want), V, E)
             cls.append('zero_test:%s' % want)
-            if want != bool(abs(V) <= 1.0 * E) or sigma == 1:
-                pass
             if E > 0 and 0.5 <= abs(V) / (sigma * E) <= 2.0:
                 nt = True
                 cls.append('zero_test:near_boundary')
@@ -639,7 +653,7 @@ def plottable_oracle(spec):
 
 @st.composite
 def prior_fit_case(draw, tier):
-    sig = draw(st.integers(1, 6))
+    sig = draw(SIG)
     e = draw(gen.fl(1.0, 9.999999999)) * pw(draw(st.integers(-4, 3)))
     if draw(st.integers(0, 3)) == 0:
         e = (10.0 - 0.5 * 10.0 ** -(sig - 1) * draw(st.sampled_from([0.5, 0.99, 1.01]))) * pw(draw(st.integers(-4, 3)))
@@ -655,7 +669,7 @@ def prior_fit_oracle(spec):
     p = pe.cov_Obs(spec['v'], spec['e'] ** 2, 'p')
     p.gamma_method()
     s = format(p, spec['flag'] + str(spec['sig']))
-    body = strip_flag(s, spec['flag'], 'prior')
+    body = strip_flag(s, spec['flag'])
     info = judge(body, float(p.value), float(p.dvalue), spec['sig'], 'format(obs, %r)' % (spec['flag'] + str(spec['sig'])))
     pv, pe_ = float(info['pv']), float(info['pe'])
     ys = []
@@ -686,7 +700,9 @@ def prior_fit_oracle(spec):
     require(float(gp.value) == pv, 'prior used by the fit for %r has value %r, printed %r' % (s, gp.value, pv))
     require(abs(float(gp.dvalue) - pe_) <= 1e-15 * pe_, 'prior used by the fit for %r has error %r, printed %r' % (s, gp.dvalue, pe_))
     a, b = got.fit_parameters[0], want.fit_parameters[0]
-    tol = 1e-9 * float(b.dvalue)
+    # Levenberg-Marquardt with a finite-difference Jacobian: the minimum is located to ~1e-8 of the parameter error
+    # (largest deviation over 1500 generated cases: 1.7e-8 between the two runs, 5.6e-8 from the closed form)
+    tol = 1e-5 * float(b.dvalue)
     require(abs(float(a.value) - float(b.value)) <= tol and abs(float(a.dvalue) - float(b.dvalue)) <= tol,
             'fit with prior %r gives %r +- %r, fit with the prior observable %r +- %r gives %r +- %r'
             % (s, a.value, a.dvalue, pv, pe_, b.value, b.dvalue))
@@ -695,21 +711,21 @@ def prior_fit_oracle(spec):
     m = [float(o.value) for o in ys] + [pv]
     avg = sum(wi * mi for wi, mi in zip(w, m)) / sum(w)
     err = math.sqrt(1.0 / sum(w))
-    require(abs(float(a.value) - avg) <= 1e-6 * err and abs(float(a.dvalue) - err) <= 1e-6 * err,
+    require(abs(float(a.value) - avg) <= 1e-5 * err and abs(float(a.dvalue) - err) <= 1e-5 * err,
             'fit with prior %r gives %r +- %r, weighted average with the printed prior is %r +- %r' % (s, a.value, a.dvalue, avg, err))
     return {'nt': info['rounded'], 'cls': ['sig:%d' % spec['sig'], 'how:' + spec['how'], 'flag:%r' % spec['flag']] + (['carry'] if info['carry'] else [])}
 
 
 SUBS = [
-    Sub('string', string_case, string_oracle, {'quick': 2500, 'thorough': 75000}, {'quick': 11, 'thorough': 16},
+    Sub('string', string_case, string_oracle, {'quick': 2500, 'thorough': 60000}, {'quick': 12, 'thorough': 16},
         doc='str/repr/format of analysed observables: half-unit re-parse, digits, flags, prior parser'),
     Sub('general', general_case, general_oracle, {'quick': 250, 'thorough': 5000}, {'quick': 1, 'thorough': 4},
         doc='the same on arbitrary analysed Monte-Carlo observables'),
-    Sub('cobs', cobs_case, cobs_oracle, {'quick': 1500, 'thorough': 40000}, {'quick': 2, 'thorough': 8},
+    Sub('cobs', cobs_case, cobs_oracle, {'quick': 1500, 'thorough': 25000}, {'quick': 2, 'thorough': 8},
         doc='complex observables print both parts in this way', max_skip_frac=0.2),
     Sub('noerror', noerror_case, noerror_oracle, {'quick': 800, 'thorough': 20000}, {'quick': 1, 'thorough': 4},
         doc='observable without error prints as its plain value', max_skip_frac=0.2),
-    Sub('views', views_case, views_oracle, {'quick': 2000, 'thorough': 50000}, {'quick': 2, 'thorough': 8},
+    Sub('views', views_case, views_oracle, {'quick': 1800, 'thorough': 30000}, {'quick': 2, 'thorough': 8},
         doc='comparisons, float, is_zero_within_error use exactly value and dvalue'),
     Sub('plottable', plottable_case, plottable_oracle, {'quick': 500, 'thorough': 10000}, {'quick': 1, 'thorough': 4},
         doc='Corr.plottable() = defined slices, values, dvalues'),
